@@ -1,4 +1,4 @@
-import Ypv.Lemmas.Parser
+import Ypv.Lemmas.WriteSim
 import Ypv.Model.Render
 /-!
 # C08 — path text and parsed segments round-trip in both notations
@@ -68,19 +68,51 @@ theorem parse_write_basic_inferred (fslash : Bool) (segs : List Seg)
     parse true (write fslash segs) = .ok segs :=
   parse_inferred fslash segs _ hx (parse_write_basic fslash segs hk hwf)
 
-/-- **parse_write for further segment kinds (partial).**  FULL STATEMENT wanted:
-`wfSegs segs → parseWith fslash true (write fslash segs) = .ok segs` for lists that also hold
-SEARCH (all nine operators, inversion), KEYWORD_SEARCH and COLLECTOR segments.  What is proved:
-the composition for ANY set `P` of segment kinds — the only missing ingredient is the
-per-kind simulation lemma `SimOK sep P` ("from a between-segments state, the written form of one
-segment of kind P leads to a between-segments state with that segment appended") for those three
-kinds; for stage 1 it is `simOK_basic`.  The check covers the three kinds by the exhaustive/random
-differential run only. -/
-theorem parse_write_search_keyword_collector_partial (P : Seg → Prop)
-    (hdot : SimOK '.' P) (hslash : SimOK '/' P) (fslash : Bool) (segs : List Seg)
-    (hk : ∀ s ∈ segs, P s) (hwf : wfSegs segs = true) :
-    parseWith fslash true (write fslash segs) = .ok segs :=
-  parse_write_of hdot hslash fslash segs hk hwf
+/-- **parse_write, dot notation (full).**  Every well-formed list of segments of ALL kinds — KEY,
+INDEX, slice, ANCHOR, MATCH_ALL, TRAVERSE, SEARCH (nine operators, inversion, the regular-expression
+delimiter chosen by the writer), KEYWORD_SEARCH, COLLECTOR (all operators) — of any length, written in
+dot notation, parses back to exactly that list. -/
+theorem parse_write_dot (segs : List Seg) (hwf : wfSegs segs = true) :
+    parseWith false true (write false segs) = .ok segs := by
+  simpa using Sim.parseWith_write false true segs hwf (by simp)
+
+/-- **parse_write, both notations (partial only by finding C08-6).**  FULL STATEMENT:
+`wfSegs segs → parseWith fslash true (write fslash segs) = .ok segs`.  It FAILS on the pinned code
+for forward-slash texts that start with one or more empty collectors `()` directly followed by an
+intersection collector `&(…)` (`/()&(b)`: the `&` is taken for an anchor mark because
+`seeking_anchor_mark`, set by the leading `/`, is only cleared by the next character that joins a
+segment text; witness `finding6` below, reproduced on /repo).  Proved for every other well-formed
+list: `fslashExpressible` is exactly the complement of that class; for dot notation there is no
+restriction (`parse_write_dot`). -/
+theorem parse_write_partial (fslash : Bool) (segs : List Seg) (hwf : wfSegs segs = true)
+    (hx : fslash = true → fslashExpressible segs = true) :
+    parseWith fslash true (write fslash segs) = .ok segs := by
+  simpa using Sim.parseWith_write fslash true segs hwf hx
+
+/-- the witness of finding C08-6: a well-formed list whose forward-slash text loses the `&` -/
+def finding6 : List Seg :=
+  [(.collector, .collector [] .none), (.collector, .collector "b".toList .inter)]
+example : wfSegs finding6 = true ∧ fslashExpressible finding6 = false ∧
+    write true finding6 = "/()&(b)".toList ∧
+    parseWith true true (write true finding6) =
+      .ok [(.collector, .collector [] .none), (.collector, .collector "b".toList .none)] ∧
+    parseWith false true (write false finding6) = .ok finding6 := by decide +kernel
+
+/-- **The `strip = false` twin (`YAMLPath.unescaped`).**  The unescaped segments of a written
+well-formed list are the same segments with their texts as written (`keepEsc`: escapes kept). -/
+theorem parse_write_unescaped_partial (fslash : Bool) (segs : List Seg) (hwf : wfSegs segs = true)
+    (hx : fslash = true → fslashExpressible segs = true) :
+    parseWith fslash false (write fslash segs) =
+      .ok (segs.map (keepEsc (if fslash then '/' else '.'))) := by
+  simpa using Sim.parseWith_write fslash false segs hwf hx
+
+/-- with the separator inferred from the text -/
+theorem parse_write_inferred_partial (fslash : Bool) (segs : List Seg) (hwf : wfSegs segs = true)
+    (hx : if fslash then fslashExpressible segs = true else dotExpressible segs = true) :
+    parse true (write fslash segs) = .ok segs := by
+  cases fslash with
+  | true => exact parse_inferred true segs _ (Or.inl rfl) (parse_write_partial true segs hwf (fun _ => hx))
+  | false => exact parse_inferred false segs _ (Or.inr hx) (parse_write_dot segs hwf)
 
 /-- **eq_iff_segments.**  The model of `YAMLPath.__eq__` (after `fixes/C08-3.patch`) answers
 `true` exactly when both texts parse and their segment lists are the same. -/
@@ -95,15 +127,15 @@ theorem eq_iff_segments (a b : Str) :
   cases ha : parse true a <;> cases hb : parse true b <;> simp
   exact eq_comm
 
-/-- …and on written paths: two well-formed lists, each written in either notation, compare equal
-iff they are the same list (stated for the stage-1 kinds, for which `parse_write` is proved). -/
+/-- …and on written paths: two well-formed lists (all kinds), each written in either notation,
+compare equal iff they are the same list. -/
 theorem eq_written (f1 f2 : Bool) (s1 s2 : List Seg)
-    (h1 : ∀ s ∈ s1, isBasic s = true) (h2 : ∀ s ∈ s2, isBasic s = true)
     (w1 : wfSegs s1 = true) (w2 : wfSegs s2 = true)
-    (x1 : f1 = true ∨ dotExpressible s1 = true) (x2 : f2 = true ∨ dotExpressible s2 = true) :
+    (x1 : if f1 then fslashExpressible s1 = true else dotExpressible s1 = true)
+    (x2 : if f2 then fslashExpressible s2 = true else dotExpressible s2 = true) :
     eqModel (write f1 s1) (write f2 s2) = .ok true ↔ s1 = s2 := by
-  rw [eq_iff_segments, parse_write_basic_inferred f1 s1 h1 w1 x1,
-    parse_write_basic_inferred f2 s2 h2 w2 x2]
+  rw [eq_iff_segments, parse_write_inferred_partial f1 s1 w1 x1,
+    parse_write_inferred_partial f2 s2 w2 x2]
   constructor
   · rintro ⟨s, ha, hb⟩
     cases ha; cases hb; rfl
